@@ -113,6 +113,16 @@ def families(w, tier):
     sub = [0, 1, dw, dw + 1, w + 1, 3 * w, 4 * w - 1, 4 * w] if tier != 'thorough' else \
         [0, 1, dw, dw + 1, w + 1, 3 * w, 4 * w - 1, 4 * w, 3 * w + w.bit_length()]
     fam['one4'] = ([(0, 4)], [0, 1, 2, 3], [sub] * 4, {}, 4)
+    # an op exactly at / right after the input bit (unaligned, 6 words): the input window of every storage configuration
+    in_addr = 3 * w + w.bit_length()
+    off = in_addr & (w - 1)
+    mask = (1 << w) - 1
+    a6 = [0, 1, dw + 1]
+    for T in (in_addr, dw, 4 * w, in_addr + 1):
+        a6 += [(T << off) & mask, T >> (w - off)]
+    a6 = list(dict.fromkeys(a6))
+    for j1 in (in_addr, in_addr + 1):
+        fam[f'in6-{j1 - in_addr}'] = ([(0, 6)], [3, 4, 5], [a6, a6, a6], {0: 0, 1: j1, 2: 0}, 6)
     return fam
 
 
